@@ -69,8 +69,10 @@ def escape_table():
 FFFD = 0xfffd
 
 
-def real_cp(cp):
-    """What the builder stores for a hex escape without a code point (string(rune(x)))."""
+def placeholder_cp(cp):
+    """The abstract grammar needs SOME code point where a hex escape without one is going to be
+    spelled; a text with such a spelling has no meaning (it must be reported, `bad_escapes`), so the
+    placeholder is never compared with anything."""
     return FFFD if cp is None else cp
 
 
@@ -814,14 +816,17 @@ def context_expr(ctx, cp):
 
 
 def systematic_rules(rng, full):
-    """List of (expr, forced) so that every escape row occurs (quick: in one context, rotating, and
+    """List of (expr, forced, kind, context, bad) so that every escape row occurs; `bad`: the digits of
+    the forced spelling when it is a hex escape without a code point (the text must then be reported,
+    naming `\\0x<bad>`), else None.  Every escape row occurs (quick: in one context, rotating, and
     every context sees every escape KIND; full: every row in every context)."""
     rows = escape_table()
     out = []
     seen_kind_ctx = set()
     k = 0
     for kind, sp, cp in rows:
-        cpr = real_cp(cp)
+        cpr = placeholder_cp(cp)
+        bad = sp[3:] if cp is None else None    # digits of a hex escape without a code point
         ctxs = CONTEXTS if full else [CONTEXTS[k % len(CONTEXTS)]]
         if not full:
             for c in CONTEXTS:
@@ -842,18 +847,20 @@ def systematic_rules(rng, full):
                     forced[idx] = ((kind, sp), None)
                 else:
                     forced[idx] = (None, (kind, sp))
-            out.append((e, forced, kind, c, cp is None))
+            out.append((e, forced, kind, c, bad))
             seen_kind_ctx.add((kind, c))
             used += 1
         if used == 0:
             # fall back to a context that takes everything
             e, loc = context_expr('lit1', cpr)
-            out.append((e, {0: (kind, sp)}, kind, 'lit1', cp is None))
+            out.append((e, {0: (kind, sp)}, kind, 'lit1', bad))
     return out
 
 
 def make_wellformed(rng, stats, n_random, full_systematic, per_text=8):
-    """Returns list of cases: dict(id, text, expect (denote), gram, features, hexinvalid)."""
+    """Returns list of cases: dict(id, text, expect (denote), kind, bad_escapes).  `bad_escapes`: digit
+    strings of the hex escapes without a code point the text is spelled with, in text order; when
+    there are any the documented outcome is an error naming each of them, not `expect`."""
     cases = []
     sysr = systematic_rules(rng, full_systematic)
     rng.shuffle(sysr)
@@ -865,30 +872,32 @@ def make_wellformed(rng, stats, n_random, full_systematic, per_text=8):
         g = gen.grammar()
         g['rules'] = []
         forced = {}
-        hexinvalid = False
-        for j, (e, f, kind, ctx, inv) in enumerate(chunk):
+        bad_escapes = []
+        for j, (e, f, kind, ctx, bad) in enumerate(chunk):
             g['rules'].append(('r%d' % j, e))
             forced[id(e)] = f
             stats.hit('escape-context', '%s@%s' % (kind, ctx))
-            hexinvalid = hexinvalid or inv
+            if bad is not None:
+                bad_escapes.append(bad)
         r = Renderer(rng, stats, {'forced': forced})
         try:
             text = r.render(g)
         except ValueError:
             # an adjacency the forced spelling cannot stand in (e.g. hex before a hex digit)
-            for (e, f, kind, ctx, inv) in chunk:
+            for (e, f, kind, ctx, bad) in chunk:
                 g1 = gen.grammar()
                 g1['rules'] = [('r0', e)]
                 r1 = Renderer(rng, stats, {'forced': {id(e): f}})
                 text1 = r1.render(g1)
-                cases.append({'id': 'sys%d' % len(cases), 'text': text1, 'expect': denote(g1), 'kind': 'systematic', 'hexinvalid': inv})
+                cases.append({'id': 'sys%d' % len(cases), 'text': text1, 'expect': denote(g1), 'kind': 'systematic',
+                              'bad_escapes': [] if bad is None else [bad]})
             continue
-        cases.append({'id': 'sys%d' % len(cases), 'text': text, 'expect': denote(g), 'kind': 'systematic', 'hexinvalid': hexinvalid})
+        cases.append({'id': 'sys%d' % len(cases), 'text': text, 'expect': denote(g), 'kind': 'systematic', 'bad_escapes': bad_escapes})
     for k in range(n_random):
         g = gen.grammar()
         r = Renderer(rng, stats)
         text = r.render(g)
-        cases.append({'id': 'rnd%d' % k, 'text': text, 'expect': denote(g), 'kind': 'random', 'hexinvalid': False})
+        cases.append({'id': 'rnd%d' % k, 'text': text, 'expect': denote(g), 'kind': 'random', 'bad_escapes': []})
     return cases
 
 
